@@ -377,12 +377,73 @@ def replay(run, case):
         correspondence(ctx)
 
 
+def rawflag_file():
+    """two segments, int32 channel /'g'/'a' with 10 values in each; the FIRST lead-in's ToC lacks kTocRawData although
+    the segment holds raw data (the eager reader reads it all the same)"""
+    import struct
+    out = b""
+    for j in range(2):
+        vals = struct.pack("<10i", *range(10 * j, 10 * j + 10))
+        pth = b"/'g'/'a'"
+        md = (struct.pack("<L", 1) + struct.pack("<L", len(pth)) + pth + struct.pack("<L", 20)
+              + struct.pack("<LLQ", 3, 1, 10) + struct.pack("<L", 0))
+        toc = (1 << 1) | (1 << 2) | ((1 << 3) if j == 1 else 0)
+        out += b"TDSm" + struct.pack("<llQQ", toc, 4713, len(md) + len(vals), len(md)) + md + vals
+    return out
+
+
+def rawflag_witness(run):
+    """the recorded finding (KNOWN_FINDINGS.txt key rawdata-flag-cleared-with-data)"""
+    run.count("rawflag_witness")
+    data = rawflag_file()
+    try:
+        eager = [int(x) for x in TdmsFile.read(io.BytesIO(data))["g"]["a"][:]]
+    except Exception:     # noqa: BLE001  (a tree that rejects such files has nothing to compare)
+        run.count("rawflag_witness_rejected")
+        return
+    bad = []
+    with TdmsFile.open(io.BytesIO(data)) as f:
+        ch = f["g"]["a"]
+        for off in range(0, len(eager) + 1):
+            for ln in [None] + list(range(0, len(eager) + 1)):
+                exp = eager[off:] if ln is None else eager[off:off + ln]
+                run.cov["evaluations"] += 1
+                try:
+                    got = [int(x) for x in ch.read_data(offset=off, length=ln)]
+                    if got != exp:
+                        bad.append(("read_data", off, ln, "wrong values %r" % got))
+                except Exception as ex:     # noqa: BLE001
+                    bad.append(("read_data", off, ln, type(ex).__name__))
+        for i in range(len(eager)):
+            try:
+                if int(ch[i]) != eager[i]:
+                    bad.append(("index", i, None, "wrong value"))
+            except Exception as ex:     # noqa: BLE001
+                bad.append(("index", i, None, type(ex).__name__))
+    if bad:
+        kinds = {}
+        for b in bad:
+            kinds[b[3] if not b[3].startswith("wrong") else "wrong"] = kinds.get(
+                b[3] if not b[3].startswith("wrong") else "wrong", 0) + 1
+        run.violation("rawdata-flag-cleared-with-data",
+                      "a segment that holds raw data but whose ToC lacks kTocRawData: TdmsFile.read returns all %d values, "
+                      "TdmsFile.open fails on %d of the windows / indices (%s), first %r (the segment generator yields a "
+                      "placeholder empty chunk and then the data, and the reader trims the placeholder)"
+                      % (len(eager), len(bad), ", ".join("%s x%d" % kv for kv in sorted(kinds.items())), bad[0]),
+                      {"op": "rawflag", "file_hex": data.hex()}, expected="full[offset:offset+length]", actual=bad[:5])
+
+
 def main():
     run = H.Run("C04")
     run.prove()
     if run.replay:
-        replay(run, json.load(open(run.replay))["case"])
+        case = json.load(open(run.replay))["case"]
+        if case.get("op") == "rawflag":
+            rawflag_witness(run)
+        else:
+            replay(run, case)
         run.finish()
+    rawflag_witness(run)
     rng = random.Random(run.seed)
     ctx = Ctx(run)
     ctx.seen_n = set()
